@@ -70,9 +70,9 @@ ROUND6 = [
 EDGE = [
     # very few candidate pairs (no more than a pool has workers) with a binding cap, several batches
     {"B": 100, "s": 1, "cols": ["id", "f1", "label"], "heuristic": "MI-numba-randomized", "target_only": "True", "seed": 44,
-     "segments": [[400, 3, 0]], "entry": "task", "cap": 1, "matrix": [[1, 0], [3, 1], [8, 0]], "matrix_t": [[1, 0], [2, 0], [3, 1], [8, 0]]},
+     "segments": [[400, 3, 0]], "entry": "task", "cap": 1, "matrix": [[1, 0], [3, 0], [8, 0]], "matrix_t": [[1, 0], [2, 0], [3, 0], [8, 0]]},
     {"B": 100, "s": 1, "cols": ["id", "f1", "label"], "heuristic": "MI-numba-randomized", "target_only": "False", "seed": 45,
-     "segments": [[400, 3, 0]], "entry": "task", "cap": 2, "matrix": [[1, 0], [8, 0]], "matrix_t": [[1, 0], [2, 0], [3, 0], [8, 1]]},
+     "segments": [[400, 3, 0]], "entry": "task", "cap": 2, "matrix": [[1, 0], [8, 0]], "matrix_t": [[1, 0], [2, 0], [3, 0], [8, 0]]},
     # degenerate columns: constant label, an entirely empty column, a strictly periodic column (batch of 99 = 33 periods);
     # exact repeat + another pool size
     {"B": 99, "s": 1, "cols": ["id", "f", "g", "e", "p", "label"], "heuristic": "MI-numba-randomized", "target_only": "False",
